@@ -203,7 +203,7 @@ func c16ReadOnly(w *core.W, j int) {
 		// 16-octet form, APL prefixes with host bits set beyond the prefix length
 		all := append(append(append([]dns.RR{}, built.Answer...), built.Ns...), built.Extra...)
 		hs := &dns.HTTPS{SVCB: dns.SVCB{Hdr: dns.RR_Header{Name: "svc.example.", Rrtype: dns.TypeHTTPS, Class: 1}, Priority: 1, Target: ".",
-			Value: []dns.SVCBKeyValue{&dns.SVCBAlpn{Alpn: []string{"h2"}}, &dns.SVCBPort{Port: 443}, &dns.SVCBIPv4Hint{Hint: []net.IP{{192, 0, 2, 1}}}}}}
+			Value: []dns.SVCBKeyValue{&dns.SVCBMandatory{Code: []dns.SVCBKey{dns.SVCB_IPV4HINT, dns.SVCB_PORT, dns.SVCB_ALPN}}, &dns.SVCBAlpn{Alpn: []string{"h2"}}, &dns.SVCBPort{Port: 443}, &dns.SVCBIPv4Hint{Hint: []net.IP{{192, 0, 2, 1}}}}}}
 		built.Answer = append(built.Answer, hs, dns.Copy(hs))
 		all = append(all, hs, built.Answer[len(built.Answer)-1])
 		all = append(all, &dns.APL{Hdr: dns.RR_Header{Name: "apl.example.", Rrtype: dns.TypeAPL, Class: 1}, Prefixes: []dns.APLPrefix{
@@ -464,7 +464,7 @@ func init() {
 	core.Register(&core.Monitor{
 		ID: "C16", Level: "exploration", Plan: plan, Run: run, Race: true,
 		Rule: "every registry type (struct-built and decoder-built) incl. every EDNS0 option and SVCB parameter kind, and whole messages; oracle = object-graph walker: address ranges of every slice backing array, pointer target and map " +
-			"reachable from copy vs original (and from a decoded message vs the input buffer incl. string data, plus overwrite-and-compare); deep snapshot before/after Pack, PackBuffer, Len, String, Copy, IsDuplicate (also on program-built values: 16-octet IPv4 addresses, APL prefixes with host bits set, SVCB parameters not in key order), RRSIG.Sign/Verify (incl. wildcard-expanded owners); " +
+			"reachable from copy vs original (and from a decoded message vs the input buffer incl. string data, plus overwrite-and-compare); deep snapshot before/after Pack, PackBuffer, Len, String, Copy, IsDuplicate (also on program-built values: 16-octet IPv4 addresses, APL prefixes with host bits set, SVCB parameters and mandatory key lists not in key order), RRSIG.Sign/Verify (incl. wildcard-expanded owners); " +
 			"the same operations concurrently on a shared message under the Go race detector; non-trivial = distinct record/message with at least one reachable mutable range",
 		Assumptions: []string{"strings are immutable and exempt from the copy check", "Rdlength and the OPT extended-RCODE bits are documented bookkeeping"},
 		MinObserved: []string{"msg_copies", "unpack_alias_checks", "readonly_ops", "signed", "verified", "wildcard_expansions", "concurrent_rounds"},
